@@ -20,6 +20,7 @@ const (
 	kInt
 	kTTL
 	kOff
+	kIdx
 	kCount
 	kScore
 	kBit
@@ -39,7 +40,7 @@ const (
 	kOpt
 )
 
-var kindName = map[kind]string{kName: "name", kKey: "key", kField: "field", kVal: "value", kInt: "int", kTTL: "ttl", kOff: "offset",
+var kindName = map[kind]string{kName: "name", kKey: "key", kField: "field", kVal: "value", kInt: "int", kTTL: "ttl", kOff: "offset", kIdx: "index",
 	kCount: "count", kScore: "score", kBit: "bit", kSRange: "scorerange", kLex: "lexrange", kLon: "lon", kLat: "lat", kRad: "radius",
 	kUnit: "unit", kPath: "path", kJSON: "json", kCur: "cursor", kPat: "pattern", kDType: "scantype", kTabCur: "tablecursor",
 	kWhere: "where", kOpt: "option"}
@@ -53,7 +54,7 @@ type arg struct {
 //
 // spec grammar (space separated): k | k:<pool> key of the template's / another
 // pool; f field/member; v value; n int; t ttl; o offset/index; c count; s score;
-// b bit; lo hi score range bounds; lx ux lex range bounds; lon lat rad unit;
+// i index (may be negative); b bit; lo hi score range bounds; lx ux lex range bounds; lon lat rad unit;
 // jp json path; jv json value; cur collection cursor; pat pattern; dtype;
 // tabcur; where; =word literal option; [ ... ] optional group; { ... } group
 // repeated 1-3 times; {* ... } group repeated 0-2 times.
@@ -97,7 +98,7 @@ var templates = []tmpl{
 	{"stale.getexpired", 'r', "x", "kv", "k"},
 	{"strlen", 'r', "s", "kv", "k"},
 	{"getnolock", 'r', "s", "kv", "k"},
-	{"getrange", 'r', "s", "kv", "k o o"},
+	{"getrange", 'r', "s", "kv", "k i i"},
 	{"mget", 'r', "s", "kv", "k {* k }"},
 	{"set", 'w', "s", "kv", "k v"},
 	{"set", 'w', "x", "kv", "k v [ =ex t ] [ =nx ]"},
@@ -123,7 +124,7 @@ var templates = []tmpl{
 	{"setbit", 'w', "b", "bitmap", "k o b"},
 	{"setbitv2", 'w', "b", "bitmap", "k o b"},
 	{"getbit", 'r', "b", "bitmap", "k o"},
-	{"bitcount", 'r', "b", "bitmap", "k [ o o ]"},
+	{"bitcount", 'r', "b", "bitmap", "k [ i i ]"},
 	{"bitclear", 'w', "b", "bitmap", "k"},
 	{"bttl", 'r', "b", "ttl", "k"},
 	{"bkeyexist", 'r', "b", "bitmap", "k"},
@@ -165,14 +166,14 @@ var templates = []tmpl{
 	{"json.arrappend", 'w', "j", "json", "k jarr { jv }"},
 	{"json.arrpop", 'w', "j", "json", "k jarr"},
 	// ---- list ----
-	{"lindex", 'r', "l", "list", "k o"},
+	{"lindex", 'r', "l", "list", "k i"},
 	{"llen", 'r', "l", "list", "k"},
-	{"lrange", 'r', "l", "list", "k o o"},
+	{"lrange", 'r', "l", "list", "k i i"},
 	{"lfixkey", 'w', "l", "list", "k"},
 	{"lpop", 'w', "l", "list", "k"},
 	{"lpush", 'w', "l", "list", "k { v }"},
-	{"lset", 'w', "l", "list", "k o v"},
-	{"ltrim", 'w', "l", "list", "k o o"},
+	{"lset", 'w', "l", "list", "k i v"},
+	{"ltrim", 'w', "l", "list", "k i i"},
 	{"rpop", 'w', "l", "list", "k"},
 	{"rpush", 'w', "l", "list", "k { v }"},
 	{"lclear", 'w', "l", "list", "k"},
@@ -185,8 +186,8 @@ var templates = []tmpl{
 	{"zcount", 'r', "z", "zset", "k lo hi"},
 	{"zcard", 'r', "z", "zset", "k"},
 	{"zlexcount", 'r', "z", "zset", "k lx ux"},
-	{"zrange", 'r', "z", "zset", "k o o [ =withscores ]"},
-	{"zrevrange", 'r', "z", "zset", "k o o [ =withscores ]"},
+	{"zrange", 'r', "z", "zset", "k i i [ =withscores ]"},
+	{"zrevrange", 'r', "z", "zset", "k i i [ =withscores ]"},
 	{"zrangebylex", 'r', "z", "zset", "k lx ux [ =limit o c ]"},
 	{"zrangebyscore", 'r', "z", "zset", "k lo hi [ =withscores ] [ =limit o c ]"},
 	{"zrevrangebyscore", 'r', "z", "zset", "k hi lo [ =withscores ] [ =limit o c ]"},
@@ -196,7 +197,7 @@ var templates = []tmpl{
 	{"zadd", 'w', "z", "zset", "k { s f }"},
 	{"zincrby", 'w', "z", "zset", "k s f"},
 	{"zrem", 'w', "z", "zset", "k { f }"},
-	{"zremrangebyrank", 'w', "z", "zset", "k o o"},
+	{"zremrangebyrank", 'w', "z", "zset", "k i i"},
 	{"zremrangebyscore", 'w', "z", "zset", "k lo hi"},
 	{"zremrangebylex", 'w', "z", "zset", "k lx ux"},
 	{"zclear", 'w', "z", "zset", "k"},
@@ -294,7 +295,9 @@ func (g *gen) value(k kind) string {
 	case kTTL:
 		return []string{"100000", "200000", "86400"}[t.Choose(3)]
 	case kOff:
-		return []string{"0", "1", "-1", "2", "5"}[t.Choose(5)]
+		return []string{"0", "1", "3", "2", "5"}[t.Choose(5)]
+	case kIdx:
+		return []string{"0", "1", "-1", "2", "-2"}[t.Choose(5)]
 	case kCount:
 		return []string{"10", "1", "2", "100"}[t.Choose(4)]
 	case kScore:
@@ -395,7 +398,7 @@ func (g *gen) instantiate(tp *tmpl) []arg {
 	return out
 }
 
-var tokKind = map[string]kind{"f": kField, "v": kVal, "n": kInt, "t": kTTL, "o": kOff, "c": kCount, "s": kScore, "b": kBit,
+var tokKind = map[string]kind{"f": kField, "v": kVal, "n": kInt, "t": kTTL, "o": kOff, "i": kIdx, "c": kCount, "s": kScore, "b": kBit,
 	"lo": kSRange, "hi": kSRange, "lx": kLex, "ux": kLex, "lon": kLon, "lat": kLat, "rad": kRad, "unit": kUnit, "jp": kPath, "jv": kJSON,
 	"cur": kCur, "pat": kPat, "dtype": kDType, "tabcur": kTabCur, "where": kWhere}
 
